@@ -43,12 +43,16 @@ FIELD_NAMES = ["a", "b_", "some_field"]
 TKEYS = ["int", "str", "optint5", "listint", "nested", "bool"]
 
 
-def logical_specs(max_fields, tkeys=None):
+PRIVATE_NAMES = ["_a", "b", "_c"]     # kinds with private names only: dataclass, attrs (parameter a, field _a), TypedDict
+
+
+def logical_specs(max_fields, tkeys=None, names=None):
     out = []
+    names = names or FIELD_NAMES
     for n in range(1, max_fields + 1):
         for tks in itertools.product(tkeys if tkeys is not None and n > 1 else TKEYS, repeat=n):
             for reqs in itertools.product(("req", "dv", "df"), repeat=n):
-                fields = [[FIELD_NAMES[i], tks[i], reqs[i]] for i in range(n)]
+                fields = [[names[i], tks[i], reqs[i]] for i in range(n)]
                 # requiredness must be expressible: non-default may not follow default
                 seen = False
                 ok = True
@@ -66,11 +70,18 @@ def logical_specs(max_fields, tkeys=None):
     return out
 
 
-def kinds_for(fields):
+def sa_load_only(fields):
+    """SQLAlchemy twins with column defaults: the loader substitutes the default of an omitted key like for every other kind, but a
+    directly constructed object holds None until flush - so these specs take part in the load comparison only"""
+    return (any(req != "req" for _, _, req in fields)
+            and all(t in ("int", "str", "bool") and not n.startswith("_") for n, t, _ in fields))
+
+
+def kinds_for(fields, for_load=False):
     out = []
     for k in KINDS:
         spec = {"kind": k, "name": "Model", "fields": fields}
-        if spec_valid(spec):
+        if spec_valid(spec) or (for_load and k == "sqlalchemy" and sa_load_only(fields)):
             out.append(k)
     return out
 
@@ -122,7 +133,7 @@ def comparable(kind_a, kind_b, spec, canon_a, canon_b):
 
 
 def check_spec(fields, cfgs_list, report):  # noqa: C901, PLR0912
-    kinds = kinds_for(fields)
+    kinds = kinds_for(fields, for_load=True)
     if len(kinds) < 2:
         report.skip("fewer than two kinds can express the spec")
         return
@@ -136,6 +147,8 @@ def check_spec(fields, cfgs_list, report):  # noqa: C901, PLR0912
                 continue
             if k == "sqlalchemy" and cfg.get("extra_out") is not None:
                 continue
+            if k == "sqlalchemy" and sa_load_only(fields) and ("skip" in cfg or "only" in cfg or str(cfg.get("map", "")).startswith("none")):
+                continue     # a skipped column is not passed to the constructor: SQLAlchemy leaves None until flush
             # the surrogate primary key of the SQLAlchemy twin is not part of the logical model: it is mapped to None (skipped)
             first = (lambda cls: [name_mapping(cls, map={"pk_": None})]) if k == "sqlalchemy" else None
             progs[k] = (spec, Program(spec, [cfg], first_providers=first))
@@ -192,6 +205,8 @@ def check_spec(fields, cfgs_list, report):  # noqa: C901, PLR0912
         for variant in ("g0", "g1", "defaults"):
             dumped = {}
             for k, (spec, prog) in progs.items():
+                if k == "sqlalchemy" and sa_load_only(fields):
+                    continue
                 values = {}
                 for fname, tkey, req in fields:
                     if variant == "defaults" and req != "req":
@@ -254,6 +269,42 @@ def check_converters(fields, report):
                                  f"{fields}: converter {ka} -> {kb} gives {codec.show(got, 100)} from {codec.show(values, 100)}", case)
 
 
+def check_partial_converters(fields, report):
+    """the source lacks one defaulted field of the logical model (allow_unlinked_optional): every destination kind must build the
+    object the model itself builds from the remaining fields"""
+    kinds = kinds_for(fields)
+    for drop, (dname, dtkey, dreq) in enumerate(fields):
+        if dreq == "req":
+            continue
+        src_fields = [f for i, f in enumerate(fields) if i != drop]
+        if not src_fields:
+            continue
+        src_cls = build({"kind": "dataclass", "name": "Src", "fields": [[n, t, "req"] for n, t, _ in src_fields]})
+        values = {fname: copy.deepcopy(TYPES[tkey]["good"][1][1]) for fname, tkey, _ in src_fields}
+        for kb in kinds:
+            if kb == "sqlalchemy":
+                continue
+            dst_cls = build({"kind": kb, "name": "Model", "fields": fields})
+            case = {"fields": fields, "dropped": dname, "to": kb, "leg": "conv_partial"}
+            report.case(("convp", str(fields), dname, kb), nontrivial=True, sample=case)
+            report.outcome("partial converter")
+            try:
+                conv = get_converter(src_cls, dst_cls, recipe=[allow_unlinked_optional(P[dst_cls][dname])])
+                dst = conv(construct(src_cls, "dataclass", copy.deepcopy(values)))
+                want = construct(dst_cls, kb, copy.deepcopy(values))
+            except Exception as e:  # noqa: BLE001
+                report.violation({"check": "C17.convert", "problem": "failed", "from": "partial", "to": kb, "exc": type(e).__name__},
+                                 f"{fields} without {dname}: converter to {kb} failed: {type(e).__name__}: "
+                                 f"{str(getattr(e, '__cause__', None) or e)[:200]}", case)
+                continue
+            spec_b = {"kind": kb, "fields": fields}
+            got, expected = field_values(dst, spec_b), field_values(want, spec_b)
+            if not same(got, expected):
+                report.violation({"check": "C17.convert", "problem": "fields_not_copied", "from": "partial", "to": kb},
+                                 f"{fields} without {dname}: converter to {kb} gives {codec.show(got, 100)}, the model itself builds "
+                                 f"{codec.show(expected, 100)}", case)
+
+
 def shard(args):
     items, mode = args
     report = Report()
@@ -264,6 +315,7 @@ def shard(args):
             check_spec(fields, cfgs, report)
         else:
             check_converters(fields, report)
+            check_partial_converters(fields, report)
         clear_caches(n)
     report.count("logical_specs", len(items))
     return report
@@ -274,7 +326,9 @@ def run(tier):
     specs = logical_specs(2, ["int", "str", "optint5", "nested"]) if tier == "quick" else logical_specs(3, ["int", "str", "optint5", "listint", "nested"])
     n = 128 if tier == "quick" else 512
     shards = [(specs[i::n], "load") for i in range(n) if specs[i::n]]
-    conv_specs = logical_specs(2)
+    private = logical_specs(2, ["int", "optint5", "nested"], names=PRIVATE_NAMES)
+    shards += [(private[i::32], "load") for i in range(32) if private[i::32]]
+    conv_specs = logical_specs(2) + logical_specs(3, ["int", "str"])[len(logical_specs(2, ["int", "str"])):] + logical_specs(2, ["int", "str"], names=PRIVATE_NAMES)
     shards += [(conv_specs[i::16], "conv") for i in range(16) if conv_specs[i::16]]
     parallel.run_shards(shard, shards, report=report)
     return report
